@@ -95,6 +95,40 @@ Theorem C03_main : forall (ltb : Z -> Z -> bool) (absdiff : Z -> Z -> Z) (grids 
 Proof. exact run_calls_main. Qed.
 Print Assumptions C03_main.
 
+(* --- round 4: ONE sampler object reconfigured between calls.  A step is a sample() on whatever space is passed to that
+       call, with the batch size and pass budget assigned at that moment, or a call that raised after moving the internal
+       state arbitrarily.  Every batch that is returned has the batch size in force rows, one column per parameter of the
+       space in force, and lies on the grid of the space in force - for any interleaving of spaces (also of different
+       dimension), reassignments and failed calls --- *)
+Theorem C03_main_reconfigured : forall (ltb : Z -> Z -> bool) (absdiff : Z -> Z -> Z) (St Hist : Type)
+  (points_of : Hist -> list point) (raw_of : list (list Z) -> cls -> St -> Hist -> nat -> list (list Z) * St)
+  (idx_of : list (list Z) -> St -> Hist -> nat -> list (list nat) * St) c,
+  contracts_any_space St Hist raw_of idx_of ->
+  forall (steps : list (sstep St Hist)) st, spaces_ok St Hist steps ->
+  Forall (fun e => length (snd e) = snd (fst e) /\ Forall (on_grid Z (fst (fst e))) (snd e) /\
+                   Forall (fun p => length p = length (fst (fst e))) (snd e))
+         (run_ssteps ltb absdiff St Hist points_of raw_of idx_of c steps st).
+Proof. exact run_steps_main. Qed.
+Print Assumptions C03_main_reconfigured.
+
+Theorem C03_reconfigured_on_grid : forall (ltb : Z -> Z -> bool) (absdiff : Z -> Z -> Z) (St Hist : Type)
+  (points_of : Hist -> list point) (raw_of : list (list Z) -> cls -> St -> Hist -> nat -> list (list Z) * St)
+  (idx_of : list (list Z) -> St -> Hist -> nat -> list (list nat) * St) c,
+  width_contracts_any_space St Hist raw_of idx_of ->
+  forall (steps : list (sstep St Hist)) st, spaces_ok St Hist steps ->
+  Forall (fun e => Forall (on_grid Z (fst (fst e))) (snd e)) (run_ssteps ltb absdiff St Hist points_of raw_of idx_of c steps st).
+Proof. exact run_steps_on_grid. Qed.
+Print Assumptions C03_reconfigured_on_grid.
+
+(* the log has exactly one entry per successful call, tagged with the space and batch size that were in force *)
+Theorem C03_reconfigured_log : forall (ltb : Z -> Z -> bool) (absdiff : Z -> Z -> Z) (St Hist : Type)
+  (points_of : Hist -> list point) (raw_of : list (list Z) -> cls -> St -> Hist -> nat -> list (list Z) * St)
+  (idx_of : list (list Z) -> St -> Hist -> nat -> list (list nat) * St) c (steps : list (sstep St Hist)) st,
+  map (fun e => (fst (fst e), snd (fst e))) (run_ssteps ltb absdiff St Hist points_of raw_of idx_of c steps st) =
+  concat (map (fun s => match s with SCall g b _ _ => [(g, b)] | SFailed _ => [] end) steps).
+Proof. exact run_steps_spaces. Qed.
+Print Assumptions C03_reconfigured_log.
+
 (* a row on the grid, read coordinate by coordinate *)
 Theorem C03_on_grid_coordinates : forall (num : Type) (zero : num) (grids : list (list num)) (row : list num),
   on_grid num grids row -> length row = length grids /\ forall c, c < length grids -> In (nth c row zero) (nth c grids []).
@@ -189,6 +223,34 @@ Example C03_ex_run :
   /\ requests nat (sampler_sample ex_ltb ex_absdiff ex_grids nat (list point) (fun h => h) ex_raw_of ex_idx_of
                                   RandomUniform 2 3 [[0; -5]] 0%nat) = [1%nat].
 Proof. vm_compute. repeat split; reflexivity. Qed.
+
+(* round 4: the same stateful generator used on two spaces of different dimension, with the batch size reassigned and a
+   failed call (which moves the state) in between: three batches, each on the grid of the space in force *)
+Definition ex_grids1 : list (list Z) := [[100; 200; 300]].
+Definition ex_raw_any (g : list (list Z)) (c : cls) (st : nat) (h : list point) (n : nat) : list (list Z) * nat :=
+  (map (fun k => map (fun j => Z.of_nat (k + st) * 4 - Z.of_nat (length h) + 90 * Z.of_nat j * Z.of_nat (length g)) (seq 0 (length g)))
+       (seq 0 n), S st).
+Definition ex_idx_any (g : list (list Z)) (st : nat) (h : list point) (n : nat) : list (list nat) * nat :=
+  (map (fun k => map (fun x => Nat.modulo (k + st) (length x)) g) (seq 0 n), S st).
+Example C03_ex_reconfigured :
+  run_ssteps ex_ltb ex_absdiff nat (list point) (fun h => h) ex_raw_any ex_idx_any Halton
+            [SCall ex_grids 2 3 [[0; 5]]; SFailed (fun st => st + 5)%nat; SCall ex_grids1 3 0 []; SCall ex_grids 1 1 [[9; 10]]] 0%nat
+  = [(ex_grids, 2%nat, [[0; 10]; [3; 10]]); (ex_grids1, 3%nat, [[100]; [100]; [100]]); (ex_grids, 1%nat, [[9; 10]])]
+  /\ run_ssteps ex_ltb ex_absdiff nat (list point) (fun h => h) ex_raw_any ex_idx_any RandomUniform
+            [SCall ex_grids 2 0 []; SCall ex_grids1 2 0 []] 0%nat
+  = [(ex_grids, 2%nat, [[0; -10]; [3; -5]]); (ex_grids1, 2%nat, [[200]; [300]])].
+Proof. vm_compute. repeat split; reflexivity. Qed.
+Example C03_ex_reconfigured_contracts : contracts_any_space nat (list point) ex_raw_any ex_idx_any.
+Proof.
+  intros g Hg. unfold raw_width_ok, raw_rows_ok, idx_ok, idx_rows_ok, ex_raw_any, ex_idx_any. cbn [fst]. repeat split; intros.
+  - apply Forall_map, Forall_forall. intros k _. now rewrite map_length, seq_length.
+  - apply Forall_map, Forall_forall. intros k _. unfold idx_in_range. clear - Hg.
+    induction g as [|x g IH]; cbn [map]; constructor.
+    + inversion Hg; subst. apply Nat.mod_upper_bound. destruct x; [congruence | discriminate].
+    + apply IH. now inversion Hg.
+  - now rewrite map_length, seq_length.
+  - now rewrite map_length, seq_length.
+Qed.
 
 (* the exact-rational grid of bounds [0,1] precision 3/10, and the historical off-grid value *)
 Example C03_ex_gridQ :
